@@ -773,6 +773,125 @@ func leakScenario(seed, latMs int, withHeld bool) (fails []string) {
 	return fails
 }
 
+// mixedCancelScenario: ONE cancel batch that mixes a broadcast want with a want that was only sent to a specific
+// peer (the two clean-up paths of the peer want manager in one call). Afterwards the requester's want-list must
+// be empty. Shape "session": a session with a peer, an exhausted (broadcast) request for a CID nobody holds plus a
+// newer request still in flight to the session peer, then the session is closed. Shape "many": GetBlocks with more
+// than 64 keys (only 64 are broadcast), cancelled after a peer was discovered and before its DONT_HAVEs return.
+// Needs latency; when the machine is too slow to hit the window the scenario reports "not reached" (no failure).
+func mixedCancelScenario(seed int, many bool) (fails []string, reached bool) {
+	const lat = 150 * time.Millisecond
+	net := tn.VirtualNetwork(delay.Fixed(lat))
+	ig := testsession.NewTestInstanceGenerator(net, mockrouting.NewServer(), nil, nil)
+	defer ig.Close()
+	insts := ig.Instances(3)
+	defer func() {
+		for _, in := range insts {
+			in.Exchange.Close()
+		}
+	}()
+	a, b := insts[0], insts[1]
+	ctx := context.Background()
+	held := blocks.NewBlock([]byte(fmt.Sprintf("mixed-held-%d", seed)))
+	if err := b.Blockstore.Put(ctx, held); err != nil {
+		panic(err)
+	}
+	missing := func(i int) cid.Cid { return blocks.NewBlock([]byte(fmt.Sprintf("mixed-missing-%d-%d", seed, i))).Cid() }
+	has := func(l []cid.Cid, k cid.Cid) bool {
+		for _, c := range l {
+			if c.Equals(k) {
+				return true
+			}
+		}
+		return false
+	}
+	waitFor := func(d time.Duration, cond func() bool) bool {
+		for end := time.Now().Add(d); !cond(); time.Sleep(2 * time.Millisecond) {
+			if time.Now().After(end) {
+				return false
+			}
+		}
+		return true
+	}
+	var requested []cid.Cid
+	if many {
+		keys := []cid.Cid{held.Cid()}
+		for i := 0; i < 79; i++ {
+			keys = append(keys, missing(i))
+		}
+		keys = append(keys, held.Cid(), missing(3))
+		requested = keys
+		rctx, cancel := context.WithCancel(ctx)
+		defer cancel()
+		ch, err := a.Exchange.GetBlocks(rctx, keys)
+		if err != nil {
+			return []string{"net-getblocks-error: " + err.Error()}, false
+		}
+		select {
+		case got, ok := <-ch:
+			if !ok || !got.Cid().Equals(held.Cid()) {
+				return []string{"net-not-delivered: >64-key request did not deliver the held block first"}, false
+			}
+		case <-time.After(8 * time.Second):
+			return []string{"net-not-delivered: >64-key request, held block not delivered after 8s"}, false
+		}
+		if !waitFor(lat, func() bool { return len(a.Exchange.GetWantBlocks()) == 79 }) || len(a.Exchange.GetWantHaves()) > 64 {
+			return nil, false
+		}
+		cancel()
+		for got := range ch {
+			fails = append(fails, "net-delivery-after-cancel: "+got.Cid().String())
+		}
+	} else {
+		z, y := missing(0), missing(1)
+		requested = []cid.Cid{z, y}
+		sctx, closeSession := context.WithCancel(ctx)
+		defer closeSession()
+		ses := a.Exchange.NewSession(sctx)
+		gctx, gcancel := context.WithTimeout(ctx, 8*time.Second)
+		got, err := ses.GetBlock(gctx, held.Cid())
+		gcancel()
+		if err != nil || !got.Cid().Equals(held.Cid()) {
+			return []string{fmt.Sprintf("net-not-delivered: session GetBlock of a held block: %v", err)}, false
+		}
+		if !waitFor(3*time.Second, func() bool { return len(a.Exchange.GetWantlist()) == 0 }) {
+			return []string{"net-wantlist-not-cleaned: want-list not empty 3s after a completed session GetBlock"}, false
+		}
+		ch1, err := ses.GetBlocks(ctx, []cid.Cid{z})
+		if err != nil {
+			return []string{"net-getblocks-error: " + err.Error()}, false
+		}
+		if !waitFor(5*time.Second, func() bool { return has(a.Exchange.GetWantHaves(), z) }) {
+			return nil, false // never became a broadcast want
+		}
+		ch2, err := ses.GetBlocks(ctx, []cid.Cid{y, y})
+		if err != nil {
+			return []string{"net-getblocks-error: " + err.Error()}, false
+		}
+		if !waitFor(lat, func() bool { return has(a.Exchange.GetWantBlocks(), y) }) || has(a.Exchange.GetWantHaves(), y) {
+			closeSession()
+			return nil, false
+		}
+		closeSession()
+		for got := range ch1 {
+			fails = append(fails, "net-delivery-after-cancel: "+got.Cid().String())
+		}
+		for got := range ch2 {
+			fails = append(fails, "net-delivery-after-cancel: "+got.Cid().String())
+		}
+	}
+	if !waitFor(3*time.Second, func() bool { return len(a.Exchange.GetWantlist()) == 0 }) {
+		left := 0
+		for _, c := range a.Exchange.GetWantlist() {
+			if has(requested, c) {
+				left++
+			}
+		}
+		fails = append(fails, fmt.Sprintf("net-wantlist-leak-after-mixed-cancel-batch: %d CID(s) of the cancelled request(s) still on GetWantlist() 3s after one cancel batch mixing broadcast and peer-targeted wants", left))
+	}
+	return fails, true
+}
+
 func execNet(f []string, o *vh.Out) string {
 	if len(f) != 5 {
 		return "bad-op"
@@ -788,6 +907,14 @@ func execNet(f []string, o *vh.Out) string {
 		if seed%2 == 0 {
 			fails = append(fails, leakScenario(seed, lat, seed%4 == 0)...)
 			kinds = append(kinds, "net-long-lived-session")
+		} else {
+			mf, reached := mixedCancelScenario(seed, seed%4 == 1)
+			fails = append(fails, mf...)
+			if reached {
+				kinds = append(kinds, "net-mixed-cancel-batch")
+			} else {
+				kinds = append(kinds, "net-mixed-cancel-not-reached")
+			}
 		}
 		for _, k := range kinds {
 			o.Kind(k)
